@@ -166,7 +166,7 @@ func uniq(s []string) map[string]bool {
 func TestReplayC06(t *testing.T) {
 	found, tried := 0, 0
 	seen := map[string]bool{}
-	for _, name := range []string{"web", "db-1", "a-b-0"} {
+	for _, name := range []string{"web", "db-1", "a-b-0", "web.v1"} {
 		for _, ord := range []int{0, 1, 7, 12, 2147483647} {
 			for _, tmpl := range [][]string{nil, {"data"}, {"data", "logs"}, {"a-1", "b", "c"}} {
 				for _, lab := range []bool{false, true} {
@@ -199,6 +199,6 @@ func TestReplayC06(t *testing.T) {
 		}
 	}
 	if found == 0 {
-		fmt.Printf("NOT-REPRODUCED bounded search: %d runs (3 set names x 5 ordinals x 4 template lists x labels x template namespace x cached claims x a failure at each claim create)\n", tried)
+		fmt.Printf("NOT-REPRODUCED bounded search: %d runs (4 set names x 5 ordinals x 4 template lists x labels x template namespace x cached claims x a failure at each claim create)\n", tried)
 	}
 }
